@@ -129,4 +129,8 @@ class LatticeInput(CellModifierInput):
         return ret
 
     def _update_cell_values(self):
-        pass
+        # the node that holds the value (made in __init__, or handed over from the data block)
+        # is the one that has to be printed
+        if self._tree["data"][0] is not self._lattice:
+            self._tree["data"].nodes.pop()
+            self._tree["data"].append(self._lattice)
